@@ -6,4 +6,4 @@ Extraction Language OCaml.
 Extraction "model.ml" io_witness N.div_eucl rle_encode rle_decode
   shownet_build shownet_handle sandnet_build sandnet_handle espnet_build espnet_handle
   pathport_build pathport_handle expect_full expect_artnet expect_overlay len
-  artnet_build artnet_handle e131_build e131_handle tx_send tx_terminate e131_rx tx_send_map tx_send_r an_tx_step sandnet_handle_compressed tx_touch an_update e131_packet e131_track esp_encode esp_decode espnet_build_rle espnet_handle_rle.
+  artnet_build artnet_handle e131_build e131_handle tx_send tx_terminate e131_rx tx_send_map tx_send_r an_tx_step sandnet_handle_compressed tx_touch an_update e131_packet e131_track esp_encode esp_decode espnet_build_rle espnet_handle_rle e131_build_opt tx_lookup tx_update.
